@@ -29,26 +29,27 @@ type LoopContract struct {
 }
 
 type FuncContract struct {
-	Name        string // as written (package relative)
-	Params      []string
-	Transparent bool
-	Trusted     bool // extern: assumed, not verified
-	Pure        bool
-	Allocates   bool
-	Mode        string // "" | "bv"
-	Safety      []string
-	Requires    []*Clause
-	Ensures     []*Clause
-	Asserts     []*Clause // proved at every return (locals visible), then assumed for the ensures; not exported to callers
-	Assigns     []*Clause
-	HasAssigns  bool
-	Decreases   *Clause
-	Loops       map[int]*LoopContract
-	AllProps    map[string]bool
-	File        string
-	Src         []string // raw lines, printed in evidence for trusted contracts
-	NoPanicSkip bool
-	ViewResult  bool // result is an attribute-value view (C07 strict-view duty applies to re-slices)
+	Name           string // as written (package relative)
+	Params         []string
+	Transparent    bool
+	Trusted        bool // extern: assumed, not verified
+	Pure           bool
+	Allocates      bool
+	Mode           string // "" | "bv"
+	Safety         []string
+	Requires       []*Clause
+	Ensures        []*Clause
+	Asserts        []*Clause // proved at every return (locals visible), then assumed for the ensures; not exported to callers
+	Assigns        []*Clause
+	HasAssigns     bool
+	Decreases      *Clause
+	Loops          map[int]*LoopContract
+	AllProps       map[string]bool
+	File           string
+	Src            []string // raw lines, printed in evidence for trusted contracts
+	NoPanicSkip    bool
+	CallsUnderLock bool // may call handlers/externals while holding its lock (Agent.Close: the property's carve-out)
+	ViewResult     bool // result is an attribute-value view (C07 strict-view duty applies to re-slices)
 }
 
 type Define struct {
@@ -80,7 +81,15 @@ type Axiom struct {
 	Props    []string
 }
 
+// Guard declares which fields of a struct type are protected by its mutex field.
+type Guard struct {
+	Type, Mutex string
+	Fields      map[string]bool
+	Props       []string
+}
+
 type ContractSet struct {
+	Guards  map[string]*Guard        // by struct type name
 	Funcs   map[string]*FuncContract // key: package-relative normalised name, or full name for externs
 	Defines map[string]*Define
 	Specs   map[string]*SpecFun
@@ -89,7 +98,7 @@ type ContractSet struct {
 }
 
 func newContractSet() *ContractSet {
-	return &ContractSet{Funcs: map[string]*FuncContract{}, Defines: map[string]*Define{}, Specs: map[string]*SpecFun{}}
+	return &ContractSet{Funcs: map[string]*FuncContract{}, Defines: map[string]*Define{}, Specs: map[string]*SpecFun{}, Guards: map[string]*Guard{}}
 }
 
 // desugar rewrites `a ==> b` and `a <==> b` (lowest precedence, ==> right
@@ -281,7 +290,7 @@ func (cs *ContractSet) parseFile(path string) error {
 			}
 			return &Clause{Kind: kind, Src: rest, Expr: e, Props: append([]string(nil), props...), Line: where}, nil
 		}
-		if cur != nil && kw != "func" && kw != "extern" && kw != "define" && kw != "spec" && kw != "axiom" && kw != "lemma" && kw != "qaxiom" {
+		if cur != nil && kw != "func" && kw != "extern" && kw != "define" && kw != "spec" && kw != "axiom" && kw != "lemma" && kw != "qaxiom" && kw != "guard" {
 			cur.Src = append(cur.Src, l)
 		}
 		switch kw {
@@ -294,6 +303,18 @@ func (cs *ContractSet) parseFile(path string) error {
 			cs.Funcs[name] = cur
 			curLoop = nil
 			props = nil
+		case "guard":
+			// guard Agent.mux: transactions, closed, handler
+			lhs, rhs, _ := strings.Cut(rest, ":")
+			tn, mf, _ := strings.Cut(strings.TrimSpace(lhs), ".")
+			g := &Guard{Type: tn, Mutex: mf, Fields: map[string]bool{}, Props: append([]string(nil), props...)}
+			for _, f := range strings.Split(rhs, ",") {
+				g.Fields[strings.TrimSpace(f)] = true
+			}
+			cs.Guards[tn] = g
+			cur = nil
+		case "callsunderlock":
+			cur.CallsUnderLock = true
 		case "transparent":
 			cur.Transparent = true
 		case "pure":
